@@ -49,6 +49,8 @@ auto verif_repeat(sv_t shape, sv_t idx, nm_size_t repeats, int axis) { return ix
 // ---- repeat with PER-ELEMENT repeats (index array of length shape[axis]) and an integer axis: view::repeat_t passes the repeats array through
 auto verif_shape_repeat_each(sv_t shape, sv_t repeats, int axis) { return ix::shape_repeat(shape,repeats,axis); }
 auto verif_repeat_each(sv_t shape, sv_t idx, sv_t repeats, int axis) { return ix::repeat(shape,idx,repeats,axis); }
+// the same call for the bounded unit (own precondition: rank and repeats length bounded, all loops unwound)
+auto verif_repeat_each_b(sv_t shape, sv_t idx, sv_t repeats, int axis) { return ix::repeat(shape,idx,repeats,axis); }
 
 // ---- take (1-d index list incl. negative entries, integer axis): view::take_t::index
 auto verif_shape_take(sv_t shape, iv_t indices, int axis) { return ix::shape_take(shape,indices,axis); }
